@@ -1123,7 +1123,9 @@ v("d127-ungrouped-first-through-series-agg", "C09", PB, "                    if 
 
 v("d128-sqlite-math-raises", "C05", SQ, "        except (ValueError, OverflowError, ZeroDivisionError):\n            # math.log(0)", "        except (KeyError,):\n            # math.log(0)")
 
-v("d129-floor-division-on-sql-slash", "C05", SM, "    ratio = (expression.args[0].float_divide(expression.args[1])).floor()", "    ratio = (expression.args[0] / expression.args[1]).floor()")
+v("d129-floor-division-on-sql-slash", "C05", SM, "    return f\"FLOOR({e0} / CAST({e1} AS {dbmodel.float_type}))\"", "    return f\"FLOOR({e0} / {e1})\"")
+v("d151-floor-division-decimal-literal", "C05", SM, "    return f\"FLOOR({e0} / CAST({e1} AS {dbmodel.float_type}))\"", "    return f\"FLOOR({e0} / (1.0 * {e1}))\"")
+v("d151-sqlite-round-away-from-zero", "C05", SQ, "    return float(round(x))\n", "    return float(math.floor(abs(x) + 0.5)) * (1.0 if x >= 0 else -1.0)\n")
 
 v("d130-where-raw-condition", "C05", PB, "    return numpy.where(_true_positions(cond), a, b)", "    return numpy.where(cond, a, b)")
 
@@ -1141,7 +1143,7 @@ v("d135-ffill-accepted-unordered-c27", "C27", ER2, "    \"bfill\",\n    \"ffill\
 
 v("d136-pandas-and-by-truthiness", "C05", PB, "            \"and\": lambda *args: self._three_valued(args, is_and=True),", "            \"and\": numpy.logical_and,")
 
-v("d137-sqlite-builtin-round", "C05", SQ, "            \"round\": functools.partial(_wrap_numpy_fn, numpy.round),\n", "")
+v("d137-sqlite-builtin-round", "C05", SQ, "            \"round\": _round_fn,\n", "")
 
 v("d138-project-accepts-row-wise-methods", "C26", VR, "                    not in data_algebra.expr_rep.fn_names_that_contradict_ordered_windowed_situation\n                ):\n                    # an operator or a row-wise method (-x,", "                    in set()\n                ):\n                    # an operator or a row-wise method (-x,")
 
